@@ -23,14 +23,19 @@ impl DurationLiteral {
     /// Create a new `DurationLiteral` from a number of units where each
     /// unit is the specified number of nanoseconds.
     ///
-    /// The interval is exact to the nanosecond (the resolution of the interval).
-    /// Returns an error if the value is not in the range of the interval.
+    /// The interval is exact: a nanosecond is the resolution of the interval.
+    /// Returns an error if the value is not in the range of the interval or is
+    /// not a whole number of nanoseconds.
     fn from_units(value: FixedPoint, nanos_per_unit: i128) -> Result<Self, &'static str> {
         // The whole and the fraction are each at most 64 bits and the number of
         // nanoseconds per unit is at most 47 bits so this arithmetic cannot overflow.
         let whole_nanos = value.whole as i128 * nanos_per_unit;
-        let fraction_nanos =
-            value.femptos as i128 * nanos_per_unit / FixedPoint::FRACTIONAL_UNITS as i128;
+        let fraction = value.femptos as i128 * nanos_per_unit;
+        if fraction % FixedPoint::FRACTIONAL_UNITS as i128 != 0 {
+            // A part of a nanosecond cannot be represented and is not silently dropped
+            return Err("duration resolution");
+        }
+        let fraction_nanos = fraction / FixedPoint::FRACTIONAL_UNITS as i128;
         let nanos = whole_nanos + fraction_nanos;
 
         let seconds = nanos / NANOS_PER_SECOND;
